@@ -97,7 +97,7 @@ pub fn run(rep: &mut Report) {
     let thorough = rep.tier == "thorough";
     let max_len: u32 = if thorough { 7 } else { 6 };
     rep.rule = format!("(a) every string over the 12-symbol syntax alphabet {{ }} ( ) \\ : . < > 9 m % up to length {} \
-        (exhaustive; plus every string over {{ }} ( ) X d h D : é 5 > up to one less), (b) single-character edits of generated well-formed patterns, (c) well-formed prefix V + separator + each of {} \
+        (exhaustive; plus every string over {{ }} ( ) X d h D : é 5 > up to one less), (a3) every date format made of a percent sign + 1-2 printable ASCII characters or + 3 characters over the flag/letter alphabet of chrono, local and utc, (b) single-character edits of generated well-formed patterns, (c) well-formed prefix V + separator + each of {} \
         malformed tails (unclosed/unmatched delimiters, lone backslash, unknown formatters, wrong arity for the formatters, bad \
         time zones, invalid strftime directives, widths >= 2^64), (d) random Unicode strings; each constructed and encoded under \
         a panic trap (encoding skipped only for representable explicit widths > 10^6); non-trivial = contains '{{' or an \
@@ -156,6 +156,34 @@ pub fn run(rep: &mut Report) {
         ctx.message = "é𝄞msg".into();
         rep.case_enumerated(s.contains('{'));
         exercise(rep, &s, &ctx, "alphabet2");
+    });
+
+    // (a3) strftime directives: every "%" + 1..2 printable ASCII characters, and "%" + 3 characters over the
+    // flag / digit / letter alphabet chrono knows, in local and utc dates
+    let printable: Vec<char> = (0x21u8..0x7f).map(|b| b as char).filter(|c| !"(){}\\".contains(*c)).collect();
+    let small: Vec<char> = "#:.-_^+0369fzZsSdDYmMHIpPjTRrcxXvVeEkKlLnNt%aAbBhgGuUwWyC".chars().collect();
+    let n1 = printable.len() as u64;
+    let n2 = n1 * n1;
+    let n3 = (small.len() as u64).pow(3);
+    let (printable_ref, small_ref) = (&printable, &small);
+    run_cases(rep, "strftime", 2 * (n1 + n2 + n3), |rep, rng, idx| {
+        let utc = idx % 2 == 1;
+        let k = idx / 2;
+        let spec: String = if k < n1 {
+            printable_ref[k as usize].to_string()
+        } else if k < n1 + n2 {
+            let j = k - n1;
+            format!("{}{}", printable_ref[(j / n1) as usize], printable_ref[(j % n1) as usize])
+        } else {
+            let j = k - n1 - n2;
+            let m = small_ref.len() as u64;
+            format!("{}{}{}", small_ref[(j / (m * m)) as usize], small_ref[(j / m % m) as usize], small_ref[(j % m) as usize])
+        };
+        let pattern = format!("[{{d(%{}){}}}]", spec, if utc { "(utc)" } else { "" });
+        let ctx = plain_ctx(rng);
+        rep.case_enumerated(true);
+        rep.count("strftime_directives_tried", 1);
+        exercise(rep, &pattern, &ctx, "strftime");
     });
 
     // (b) single edits of valid patterns
